@@ -4,8 +4,9 @@
      do_conf_str_meson     mesonbuild/utils/universal.py:1692-1717
      do_conf_str_cmake     mesonbuild/utils/universal.py:1719-1750
      do_conf_file          mesonbuild/utils/universal.py:1752-1770 (readlines / writelines)
-   do_define_cmake is modelled WITH pending/C14-cmakedefine-indent.diff applied
-   (arr = line.lstrip()[1:].split() instead of line[1:].split()).
+   Modelled WITH these patches applied: C14-cmakedefine-indent (arr = line.lstrip()[1:].split(),
+   in /repo since a3dbc3e), pending/C14-mesondefine-value-rescanned.diff (no second scan of a
+   string value) and pending/C14-define-line-eol.diff (define lines keep their terminator).
    Model file: definitions only, no proofs. *)
 From MV Require Import Base.Strs Subst.Data Subst.Meson Subst.CMake.
 Open Scope N_scope.
@@ -20,14 +21,24 @@ Definition do_define_meson (d : conf) (line : str) : result str :=
       match lookup d varname with
       | None => Ok (undef_comment varname)                   (* KeyError *)
       | Some (VStr v) =>
-          (* f'#define {varname} {v}'.strip() + '\n', then do_replacement_meson on it *)
-          let result := strip (s2l "#define " ++ varname ++ [32] ++ v) ++ NL in
-          Ok (fst (subst_meson d result))
+          (* f'#define {varname} {v}'.strip() + '\n'   [patched: the finished line is no longer
+             passed through do_replacement_meson] *)
+          Ok (strip (s2l "#define " ++ varname ++ [32] ++ v) ++ NL)
       | Some (VBool true) => Ok (s2l "#define " ++ varname ++ NL)
       | Some (VBool false) => Ok (s2l "#undef " ++ varname ++ NL)
       | Some (VInt z) => Ok (s2l "#define " ++ varname ++ [32] ++ Z_dec z ++ NL)
       end
   | _ => MesonErr                                            (* len(arr) != 2 *)
+  end.
+
+(* eol = line[len(line.rstrip('\r\n')):] ; if eol: line = line[:-1] + eol
+   [patched: a define line keeps the template line's own terminator] *)
+Definition is_crlf (c : char) : bool := (c =? 10) || (c =? 13).
+Definition line_eol (line : str) : str := rev (fst (span is_crlf (rev line))).
+Definition set_eol (line out : str) : str :=
+  match line_eol line with
+  | [] => out
+  | e => removelast out ++ e
   end.
 
 (* re.search(r'#\s*cmakedefine', line) *)
@@ -48,7 +59,7 @@ Fixpoint conf_meson_loop (d : conf) (lines : list str) (acc : list str) (miss : 
   | line :: rest =>
       if prefixb (s2l "#mesondefine") (lstrip line) then
         match do_define_meson d line with
-        | Ok l => conf_meson_loop d rest (l :: acc) miss false
+        | Ok l => conf_meson_loop d rest (set_eol line l :: acc) miss false
         | MesonErr => MesonErr | PyErr c => PyErr c | OutOfFuel => OutOfFuel
         end
       else if search_cmakedefine line then MesonErr            (* Format error *)
@@ -105,7 +116,7 @@ Fixpoint conf_cmake_loop (at_only : bool) (d : conf) (lines : list str) (acc : l
   | line :: rest =>
       if is_cmakedefine_line line then
         match do_define_cmake at_only d line with
-        | Ok l => conf_cmake_loop at_only d rest (l :: acc) miss false
+        | Ok l => conf_cmake_loop at_only d rest (set_eol line l :: acc) miss false
         | MesonErr => MesonErr | PyErr c => PyErr c | OutOfFuel => OutOfFuel
         end
       else if contains (s2l "#mesondefine") line then MesonErr   (* Format error *)
